@@ -47,6 +47,31 @@ def check_partial_reads(ctx, g):
     ctx.rule("io.complete-reads", complete, floor=340, note=f"complete reads (read_exact/read_to_end) on decode paths; partial-read calls found: {n} (expected 0; matcher fixture checked)")
 
 
+PARTIAL_W = __import__("re").compile(r"(?:std::io::Write|AsyncWriteExt|WriteExt|AsyncWrite)::(write|write_vectored|poll_write|write_buf)$")
+
+
+def check_partial_writes(ctx, g):
+    """An encode path may only use complete writes (write_all): a single `write` hands over as many bytes as the sink takes in one
+    step (a ZlibEncoder stops when its output buffer is full) and returns the count, so large values are written truncated."""
+    n = 0
+    complete = 0
+    for crate in ("wow_world_messages", "wow_login_messages"):
+        F = g.f(crate)
+        for m in F.all("mir"):
+            for call in m["calls"]:
+                callee = call[1] or ""
+                if callee.endswith("::write_all") and "Write" in callee:
+                    complete += 1
+                mm = PARTIAL_W.search(callee)
+                if mm:
+                    n += 1
+                    ctx.violate("io.complete-writes", f"{crate}::{m['path']}|{mm.group(1)}", f"{m['path']} calls {callee} ({(call[3] or '')[:60]}): a partial write; "
+                                "the sink may accept only part of the buffer (e.g. a ZlibEncoder whose output buffer is full) and the returned count is the caller's business: large values are encoded truncated", None, None)
+    if not PARTIAL_W.search("std::io::Write::write") or PARTIAL_W.search("std::io::Write::write_all"):
+        ctx.violate("io.complete-writes", "fixture", "the partial-write matcher fails its positive/negative example")
+    ctx.rule("io.complete-writes", complete, floor=7900, note=f"complete writes (write_all) on encode paths; partial-write calls found: {n} (expected 0; matcher fixture checked)")
+
+
 def check_builtin_lossless(ctx, g):
     """Hand-written decode helpers (manual types, util::functions::shared): a value that comes from the wire may not pass through a
     non-injective integer operation (integer division / remainder, narrowing integer cast) on its way into the decoded value -
@@ -165,6 +190,8 @@ def run(ctx):
     from . import c09
     c09.check_alloc_guards(ctx, st)
     check_partial_reads(ctx, st["g"])
+    check_partial_writes(ctx, st["g"])
+    check_partial_writes(ctx, st["g"])
     check_builtin_lossless(ctx, st["g"])
     ctx.rule("lay.read-write-ref", n_read + n_write, floor=READ_FLOOR + WRITE_FLOOR,
              note=f"{n_read} reader and {n_write} writer layouts of {n_containers} containers vs wowm reference ({len(skipped)} non-wire helper structs skipped)")
